@@ -8,6 +8,9 @@
  *                                            Uri-Query option values, hex, `-` = empty value) through
  *                                            coap_dispatch() on a UDP session, Block2 size 2^(szx+4), reassembled;
  *                                            output <body hex>:<number of responses>  (coap_socket_send is wrapped: nothing is sent)
+ *   getx <table> <szx> <xfers>:<order>       interleaved block-wise GETs: <xfers> = `/`-separated `<session 0..3>@<queries>`,
+ *                                            <order> = digits, each = "transfer i sends its next block request"; afterwards every
+ *                                            unfinished transfer is completed; output per transfer <body hex|bad>:<responses>, `,`-joined
  *
  *   <table>   `-` or `,`-separated entries  `+<path>:<flags>:<attrs>` (coap_add_resource) / `!<path>` (coap_delete_resource)
  *             flags: 1 observable, 2 COAP_RESOURCE_FLAGS_OSCORE_ONLY,
@@ -334,6 +337,122 @@ out:
   for (k = 0; k < nq; k++) free(qv[k]);
 }
 
+/* ---- getx: several block-wise transfers (different Uri-Query options, one or two sessions) whose block requests
+ *      interleave in the order given by the script; every transfer must reassemble to the listing for ITS query ---- */
+#define XMAX 8
+struct xfer {
+  int sid;
+  uint8_t *qv[8]; size_t ql[8]; int nq;
+  uint8_t *buf; size_t blen, cap;
+  unsigned next, nresp;
+  int done, failed;
+};
+
+/* one block request of one transfer through coap_dispatch(); returns 0 on a malformed/unexpected response */
+static int x_request(coap_session_t *session, struct xfer *x, int idx, int szx, unsigned mid) {
+  coap_pdu_t *req = coap_pdu_init(COAP_MESSAGE_CON, COAP_REQUEST_CODE_GET, (coap_mid_t)mid, 1152);
+  coap_pdu_t *rsp;
+  uint8_t tok[2], b[4];
+  coap_opt_iterator_t oi;
+  coap_opt_t *o;
+  size_t dl = 0; const uint8_t *d = NULL;
+  unsigned more = 0, num = x->next;
+  int ok = 1, k;
+  tok[0] = 0xD0; tok[1] = (uint8_t)idx;
+  coap_add_token(req, 2, tok);
+  coap_add_option(req, COAP_OPTION_URI_PATH, 11, (const uint8_t *)".well-known");
+  coap_add_option(req, COAP_OPTION_URI_PATH, 4, (const uint8_t *)"core");
+  for (k = 0; k < x->nq; k++) coap_add_option(req, COAP_OPTION_URI_QUERY, x->ql[k], x->qv[k]);
+  coap_add_option(req, COAP_OPTION_BLOCK2, coap_encode_var_safe(b, sizeof(b), (num << 4) | (unsigned)szx), b);
+  cap_n = 0; cap_len = 0;
+  coap_lock_lock(ctx, );
+  coap_dispatch(ctx, session, req);
+  coap_lock_unlock(ctx);
+  coap_delete_pdu(req);
+  x->next++; x->nresp++;
+  if (cap_n != 1) return 0;
+  rsp = coap_pdu_init(0, 0, 0, 2048);
+  if (!coap_pdu_parse(COAP_PROTO_UDP, cap, cap_len, rsp)) { coap_delete_pdu(rsp); return 0; }
+  if (rsp->code != COAP_RESPONSE_CODE(205)) { coap_delete_pdu(rsp); return 0; }
+  coap_get_data(rsp, &dl, &d);
+  o = coap_check_option(rsp, COAP_OPTION_BLOCK2, &oi);
+  if (o) {
+    unsigned v = coap_decode_var_bytes(coap_opt_value(o), coap_opt_length(o));
+    more = (v >> 3) & 1;
+    if ((v >> 4) != num || (int)(v & 7) != szx) ok = 0;
+    if (more && dl != ((size_t)1 << (szx + 4))) ok = 0;
+    if (dl > ((size_t)1 << (szx + 4))) ok = 0;
+  } else if (num != 0) ok = 0;
+  if (ok && dl) {
+    if (x->blen + dl > x->cap) { x->cap = (x->blen + dl) * 2 + 64; x->buf = (uint8_t *)realloc(x->buf, x->cap); }
+    memcpy(x->buf + x->blen, d, dl); x->blen += dl;
+  }
+  coap_delete_pdu(rsp);
+  if (ok && !more) x->done = 1;
+  if (ok && x->next > 5000) ok = 0;
+  return ok;
+}
+
+static void do_getx(char *table, int szx, char *script) {
+  static struct xfer xs[XMAX];
+  coap_session_t *sess[4] = { NULL, NULL, NULL, NULL };
+  char *parts[2], *xw[XMAX];
+  int nx = 0, i, k, good = 1;
+  unsigned mid = 0x2000;
+  memset(xs, 0, sizeof(xs));
+  if (szx < 0 || szx > 6 || split(script, ':', parts, 2) != 2) { printf("bad-op"); return; }
+  nx = split(parts[0], '/', xw, XMAX);
+  if (nx < 1) { printf("bad-op"); return; }
+  for (i = 0; i < nx && good; i++) {
+    char *at = strchr(xw[i], '@'), *qw[8];
+    if (!at) { good = 0; break; }
+    *at++ = 0;
+    xs[i].sid = atoi(xw[i]);
+    if (xs[i].sid < 0 || xs[i].sid > 3) { good = 0; break; }
+    if (strcmp(at, "N") && strcmp(at, "-")) {
+      int nq = split(at, '+', qw, 8);
+      if (nq < 0) { good = 0; break; }
+      for (k = 0; k < nq; k++) {
+        xs[i].qv[k] = h_unhex(qw[k], &xs[i].ql[k]);
+        if (!xs[i].qv[k]) { good = 0; break; }
+        xs[i].nq = k + 1;
+      }
+    }
+  }
+  for (k = 0; parts[1][k] && good; k++) if (parts[1][k] < '0' || parts[1][k] > '9') good = 0;
+  if (!good || !build_table(table)) { printf("bad-op"); goto out; }
+  for (i = 0; i < nx; i++) {
+    if (!sess[xs[i].sid]) {
+      coap_address_t addr;
+      coap_address_init(&addr);
+      addr.size = sizeof(struct sockaddr_in);
+      addr.addr.sin.sin_family = AF_INET;
+      addr.addr.sin.sin_addr.s_addr = htonl(INADDR_LOOPBACK);
+      addr.addr.sin.sin_port = htons((uint16_t)(5683 + xs[i].sid));
+      sess[xs[i].sid] = coap_new_client_session(ctx, NULL, &addr, COAP_PROTO_UDP);
+      if (!sess[xs[i].sid]) { printf("fail-session"); goto out; }
+    }
+  }
+  /* the script order, then every unfinished transfer is run to its end */
+  for (k = 0; parts[1][k]; k++) {
+    i = parts[1][k] - '0';
+    if (i < nx && !xs[i].done)
+      if (!x_request(sess[xs[i].sid], &xs[i], i, szx, mid++)) { xs[i].done = 1; xs[i].failed = 1; }
+  }
+  for (i = 0; i < nx; i++)
+    while (!xs[i].done)
+      if (!x_request(sess[xs[i].sid], &xs[i], i, szx, mid++)) { xs[i].done = 1; xs[i].failed = 1; }
+  for (i = 0; i < nx; i++) {
+    if (i) fputc(',', stdout);
+    if (xs[i].failed) printf("bad"); else h_puthex(stdout, xs[i].buf, xs[i].blen);
+    printf(":%u", xs[i].nresp);
+  }
+out:
+  for (i = 0; i < 4; i++) if (sess[i]) coap_session_release(sess[i]);
+  h_delete_all_resources();
+  for (i = 0; i < XMAX; i++) { for (k = 0; k < 8; k++) free(xs[i].qv[k]); free(xs[i].buf); }
+}
+
 static void do_match(const char *t, const char *p, int pfx, int sub) {
   size_t tl, pl;
   uint8_t *tb = h_unhex(t, &tl), *pb = h_unhex(p, &pl), *te, *pe;
@@ -353,6 +472,7 @@ static void step(char *line) {
   if (n == 4 && !strcmp(w[0], "wk")) { do_wk(w[1], w[2], w[3]); return; }
   if (n == 3 && !strcmp(w[0], "body")) { do_body(w[1], w[2]); return; }
   if (n == 4 && !strcmp(w[0], "get")) { do_get(w[1], w[2], atoi(w[3])); return; }
+  if (n == 4 && !strcmp(w[0], "getx")) { do_getx(w[1], atoi(w[2]), w[3]); return; }
   if (n == 5 && !strcmp(w[0], "match")) { do_match(w[1], w[2], atoi(w[3]), atoi(w[4])); return; }
   printf("bad-op");
 }
